@@ -242,3 +242,35 @@ func zzC06Gate() {
 	vAssert(env.asyncCalls <= 1, "C03.async-at-most-once")
 	vReach("end")
 }
+
+// C03-H1 (client side): ClientSession.handle releases calls with Async (before the method layer, at most once)
+// and never notifications, for every method name the client can receive and the gaps between them.
+func zzC03ClientGate() {
+	env := &zzC06Env{}
+	zzC06 = env
+	c := NewClient(&Implementation{Name: "c", Version: "v"}, nil)
+	c.receivingMethodHandler_ = func(ctx context.Context, method string, req Request) (Result, error) {
+		zzC06.inMethod = true
+		zzC06.reached = append(zzC06.reached, method)
+		return &emptyResult{}, nil
+	}
+	cs := &ClientSession{client: c}
+	var ms []string
+	for m := range clientMethodInfos {
+		ms = append(ms, m)
+	}
+	method := vStringAmong("method", ms...)
+	req := &jsonrpc.Request{Method: method}
+	isCall := vBool("hasID")
+	if isCall {
+		req.ID = jsonrpc2.Int64ID(7)
+	}
+	cs.handle(context.Background(), req)
+	want := 0
+	if isCall {
+		want = 1
+	}
+	vAssert(env.asyncCalls == want, "C03.client-async-iff-call")
+	vAssert(want == 0 || len(env.reached) == 0 || env.asyncBefore, "C03.async-before-method-layer")
+	vReach("end")
+}
